@@ -131,3 +131,33 @@ Theorem C06_sites_join_rule : forall root cs x, root <> [] -> endswith root [sla
   Forall good_c cs -> good_c x -> posix_join (fs_render root cs) (snd x) = fs_render root (cs ++ [x]).
 Proof. exact join_bridge. Qed.
 Print Assumptions C06_sites_join_rule.
+
+(* ---- The application side: every call in radicale/app/NAME.py of a storage entry point (discover, create_collection,
+   acquire_lock(path=), upload, delete, move, get_multi, sync) with the way its string argument was obtained, REGENERATED
+   on every run.  The checker accepts a path argument only if it is built from results of pathutils.sanitize_path
+   (a prefix-stripped suffix, a parent, the path parameter the gate hands to the handlers) or is the principal path of a
+   login name that passed is_safe_path_component; a name argument only if it is the last component of such a path, was
+   checked by name_from_path, or came back from the storage.  This is a ROUTING statement about the source text
+   (Routed / Named are syntactic); the confinement itself (C06_sites_confined) does not depend on it. *)
+Theorem C06_app_sites_ok_sound : forall calls sites, app_sites_ok calls sites = true ->
+  forall s, In s sites ->
+  match a_role s with
+  | RPath => Routed calls (a_prov s)
+  | RName => Named calls (a_prov s)
+  | RToken => True
+  end.
+Proof. exact app_sites_ok_sound. Qed.
+Print Assumptions C06_app_sites_ok_sound.
+
+Theorem C06_app_sites_checked : app_sites_ok C06Sites.app_calls C06Sites.app_sites = true.
+Proof. exact Gen_c06_app_sites_ok. Qed.
+Print Assumptions C06_app_sites_checked.
+
+Theorem C06_app_sites_routed : forall s, In s C06Sites.app_sites ->
+  match a_role s with
+  | RPath => Routed C06Sites.app_calls (a_prov s)
+  | RName => Named C06Sites.app_calls (a_prov s)
+  | RToken => True
+  end.
+Proof. exact c06_app_sites_routed. Qed.
+Print Assumptions C06_app_sites_routed.
